@@ -62,7 +62,8 @@ namespace vu::bits
                   I::peek_uint16_be, I::peek_uint16_le, I::peek_uint32_be, I::peek_uint32_le, I::peek_uint64_be, I::peek_uint64_le,
                   I::peek_mask_uint16_be< 0x0ff0 >, I::peek_mask_uint16_le< 0x0ff0 >, I::peek_mask_uint32_be< 0x00ffff00 >, I::peek_mask_uint32_le< 0x00ffff00 >,
                   I::peek_mask_uint64_be< 0x00ffff0000ffff00ULL >, I::peek_mask_uint64_le< 0x00ffff0000ffff00ULL > >( in );
-      n += matches< any, one< 'a', 'Z', '\n' >, not_one< 'a', '\r' >, range< 'a', 'f' >, not_range< '\xf0', '\x7f' >, ranges< 'a', 'f', '0', '9', '_' >, I::one< I::result_on_found::success, I::peek_char, '\x80', '\xff' >,
+      n += vu::touch< one<>, not_one<>, utf8::one<>, utf8::not_one<> >();      // rules without a match of their own (an empty list): their facts name the base that has it
+      n += matches< any, one<>, not_one<>, utf8::one<>, utf8::not_one<>, one< 'a', 'Z', '\n' >, not_one< 'a', '\r' >, range< 'a', 'f' >, not_range< '\xf0', '\x7f' >, ranges< 'a', 'f', '0', '9', '_' >, I::one< I::result_on_found::success, I::peek_char, '\x80', '\xff' >,
                     utf8::any, utf8::bom, utf8::one< 0xe4, 0x10000, 0x7f >, utf8::not_one< 0xe4, 0x10ffff >, utf8::range< 0x80, 0x7ff >, utf8::not_range< 0xd7ff, 0xe000 >, utf8::ranges< 0x20, 0x7e, 0x800, 0xffff, 0x10ffff >,
                     utf16_be::any, utf16_be::bom, utf16_be::one< 0xe4, 0x10000 >, utf16_be::not_one< 0xffff >, utf16_be::range< 0xd000, 0x10400 >, utf16_be::not_range< 0xd7ff, 0xe000 >, utf16_be::ranges< 0x20, 0x7e, 0xe000, 0x10ffff, 0x10 >,
                     utf16_le::any, utf16_le::bom, utf16_le::one< 0xe4, 0x10000 >, utf16_le::not_one< 0xffff >, utf16_le::range< 0xd000, 0x10400 >, utf16_le::not_range< 0xd7ff, 0xe000 >, utf16_le::ranges< 0x20, 0x7e, 0xe000, 0x10ffff, 0x10 >,
